@@ -19,6 +19,7 @@ class Case:
         self.tags = collections.Counter()
         self.stopped = None    # reason the implementation run stopped early (exception)
         self.trace = None      # {"points": [...], "last": ..., "rewards": [...]} for relational checks
+        self.cov = []          # thorough tier: (file, line) pairs of the library first executed by this case
 
     def op(self, line, expected):
         self.ops.append((line, expected))
@@ -132,3 +133,28 @@ def write_evidence(prop, tier, seed, coverage, assumptions, wall_s, violations, 
     with open(os.path.join(EVID_DIR, f"{prop}.json"), "w") as f:
         json.dump(ev, f, indent=1, default=str)
     return ev
+
+
+def line_coverage(cases, repo):
+    """aggregate the library lines executed by the cases of a thorough run, per file, against the executable
+    statements found with `ast`"""
+    import ast, collections
+    hit = collections.defaultdict(set)
+    for c in cases:
+        for fn, ln in getattr(c, "cov", []) or []:
+            hit[fn].add(ln)
+    out = {}
+    for fn, lines in sorted(hit.items()):
+        try:
+            tree = ast.parse(open(os.path.join(repo, "PyXAB", fn)).read())
+        except Exception:
+            continue
+        stm = [n for n in ast.walk(tree) if isinstance(n, ast.stmt) and not isinstance(n, (ast.FunctionDef, ast.ClassDef, ast.Import, ast.ImportFrom))
+               and not (isinstance(n, ast.Expr) and isinstance(getattr(n, "value", None), ast.Constant))]
+
+        def head_hit(n):      # a statement counts as executed when a line of its header (or its only line) was traced
+            last = n.body[0].lineno - 1 if getattr(n, "body", None) and isinstance(n.body, list) and n.body else getattr(n, "end_lineno", n.lineno)
+            return any(l in lines for l in range(n.lineno, max(n.lineno, last) + 1))
+        missed = sorted({n.lineno for n in stm if not head_hit(n)})
+        out[fn] = {"executed": len({n.lineno for n in stm}) - len(missed), "statements": len({n.lineno for n in stm}), "missed_lines": missed[:25]}
+    return out
